@@ -1110,6 +1110,11 @@ def build_unit(unit, repo, variant=None, isolate=()):
             # traits): the matched source text is placed verbatim inside the given wrapper function
             ms = list(re.finditer(spec['fragment'], text, re.S if 'S' in spec.get('fragment_flags', '') else 0))
             if len(ms) != 1:
+                if _iid in isolate:
+                    # the statement fragment cannot even be located in this tree: nothing can be woven for the item
+                    # (its obligations stay UNDECIDED; the rest of the unit is still decided)
+                    log.append(('R26', '%s: fragment not found (%d matches); item left out' % (item_id, len(ms))))
+                    continue
                 raise Undecided('%s: fragment pattern matches %d times' % (item_id, len(ms)))
             frag = ms[0].group(0)
             text = spec['wrapper'].replace('{FRAG}', frag)
